@@ -417,17 +417,67 @@ def design_record(d):
   return rec
 
 
-def run_search(case, method, seed_numpy=True):
-  """-> ('ok', [records], mm) | ('rejected', msg) | ('ValueError', msg) | ('crash', kind, msg)."""
+def other_kwargs(kw):
+  """Parameters of a second searcher that shares the data object: same window, different geo subset / sizes."""
+  kb = dict(kw)
+  if 'n_geos_max' in kb:
+    del kb['n_geos_max']
+  else:
+    kb['n_geos_max'] = 2
+  if 'treatment_geos_range' in kb:
+    del kb['treatment_geos_range']
+  else:
+    kb['treatment_geos_range'] = (1, 1)
+  kb.pop('budget_range', None)
+  kb['n_designs'] = 3
+  return kb
+
+
+def run_search(case, method, seed_numpy=True, history=None):
+  """-> ('ok', [records], mm) | ('rejected', msg) | ('ValueError', msg) | ('crash', kind, msg).
+
+  history='shared-data': a second searcher with other parameters (same analysis window) is built on the SAME data
+  object; the measured result is that of searcher A's second run, after B has searched in between."""
   from vmm import core
+  from matched_markets.methodology import tbrmatchedmarkets, tbrmmdesignparameters
   if seed_numpy:
     np.random.seed(12345)
   try:
     mm, par = build_mm(case)
+    if history == 'reused-data':
+      # the data object was used before by a searcher with the full window (same other parameters)
+      data = mm.data
+      kw0 = dict(case.kwargs)
+      kw0.pop('n_pretest_max', None)
+      from matched_markets.methodology import geoeligibility, tbrmmdata
+      ge = geoeligibility.GeoEligibility(case.elig_df.copy()) if case.elig_df is not None else None
+      data = tbrmmdata.TBRMMData(case.df.copy(), case.resp_col, ge)
+      mm0 = tbrmatchedmarkets.TBRMatchedMarkets(data, tbrmmdesignparameters.TBRMMDesignParameters(**kw0))
+      try:
+        _ = mm0.geo_assignments
+        getattr(mm0, method)()
+      except ValueError:
+        pass
+      mm = tbrmatchedmarkets.TBRMatchedMarkets(data, par)
   except ValueError as e:
     return ('rejected', str(e)[:200])
   except Exception as e:  # pylint: disable=broad-except
     return ('crash', core.crash_kind('build', e), str(e)[:200])
+  if history == 'shared-data':
+    try:
+      mm_b = tbrmatchedmarkets.TBRMatchedMarkets(mm.data, tbrmmdesignparameters.TBRMMDesignParameters(**other_kwargs(case.kwargs)))
+      getattr(mm, method)()
+      for m2 in ('exhaustive_search', 'greedy_search'):
+        try:
+          getattr(mm_b, m2)()
+        except ValueError:
+          pass
+    except ValueError:
+      pass
+    except Exception as e:  # pylint: disable=broad-except
+      return ('crash', core.crash_kind(method + ':shared-data-prefix', e), str(e)[:200])
+    if seed_numpy:
+      np.random.seed(12345)
   try:
     res = getattr(mm, method)()
   except ValueError as e:
